@@ -93,19 +93,11 @@ Hashable(v) == CASE v.k \in {"list", "set", "dict", "pair"} -> FALSE
                  [] OTHER -> TRUE
 
 (* ------------------------------ deviations ------------------------------ *)
-AsCoded == {"L_negzero",        \* literalgen._float_to_cst: `value < 0` is false for -0.0: sign dropped
-            "L_digits",         \* str(int) beyond the 4300 digit limit raises ValueError
-            "A_digits",         \* the same in assertion_to_ast._value_to_cst
-            "A_negzero",        \* _make_float_literal(-0.0) builds cst.Float("-0.0"): invalid node
-            "A_nan",            \* `x == pytest.approx(float('nan'))` / `==` on NaN-carrying complex is false
-            "A_complex",        \* _value_to_cst(complex): SimpleString(repr(value)) without quotes
-            "A_strenum",        \* isinstance(value, str) is tested before is_enum: SimpleString(repr(member))
-            "A_flagname",       \* Flag combination / zero: member.name is "R|W" / None
-            "A_enum_scope",     \* enum rendered as bare `Class.MEMBER`: nested / private / foreign classes
-            "A_local_class",    \* isinstance on a SUT class with <locals> in its qualname
-            "A_dynamic_class",  \* isinstance on a SUT class that is no attribute of the module
-            "A_unnamed_builtin"}\* isinstance on builtins types that are no builtins names (dict_keys, generator)
-            \* "X_no_pytest" (file imported pytest only for pytest.raises / the seed fixture): fixed in 1355a01
+AsCoded == {"A_nan",            \* `x == pytest.approx(float('nan'))` / `==` on NaN-carrying complex is false
+            "A_enum_scope"}     \* enum rendered as bare `Class.MEMBER`: nested / private / foreign classes
+            \* repaired in /repo (see known_findings.json): L_negzero ffed585, L_digits b45bb32, A_digits 028f153,
+            \* A_negzero 38b16ce, A_complex 6572709, A_strenum 7a724a9, A_flagname 35c93d9,
+            \* A_local_class / A_dynamic_class / A_unnamed_builtin 166de42, X_no_pytest 1355a01
 Intended == {}
 
 (* ------------------------------ rendered syntax ------------------------------ *)
